@@ -155,6 +155,10 @@ EndStep ==      \* commit: the model projects to what was logged
   /\ Ev.e \in {"Q", "End"} \/ k = 1
   /\ Match(Ev.obs) /\ Props
   /\ Ev.e = "End" => Chk("i.NoStuckCaller", EndOK)
+  \* observed on the simulated network when a response head is handed to its caller:
+  \* C10 - the request went to a stream made for exactly its origin, TLS per scheme
+  \* C14 - its head was seen on at most one stream
+  /\ (Ev.e = "Q" /\ Ev.got) => (Chk("o.Route", Ev.route = "ok") /\ Chk("o.AtMostOnce", Ev.nsent <= 1))
   /\ Ev.e = "Q" /\ Ev.r \in TReq =>
         Chk("ret", IF Ev.ret = "" THEN pc[Ev.r] \notin Terminal ELSE pc[Ev.r] = RetPc(Ev.ret))
   /\ l' = l + 1 /\ k' = 0
